@@ -24,7 +24,7 @@ from ..refstyle import RefStyle
 ID = "C08"
 LEVEL = "exploration"
 ENGINE = "E1"
-CAP_S = {"quick": 300, "thorough": 1800}
+CAP_S = {"quick": 600, "thorough": 2700}
 
 NULL = RefStyle()
 NULLVIS = NULL.visible()
